@@ -17,7 +17,7 @@ BITS = {"int64_t": 64, "uint64_t": 64, "long": 64, "unsigned long": 64, "size_t"
 
 
 def bits_of(ty):
-    return BITS.get((ty or "").replace("const ", "").strip())
+    return BITS.get((ty or "").replace("const ", "").replace("&", "").strip())
 
 
 def wide_root(fn, eid):
@@ -28,6 +28,11 @@ def wide_root(fn, eid):
             return None
         if x["k"] == "ref" and "did" in x and bits_of(x.get("ty")) == 64:
             return x["did"]
+        if x["k"] == "unop" and x["op"] == "*":
+            p = fn.e(fn.strip(x["sub"])) if fn.e(x["sub"]) and fn.e(x["sub"])["k"] != "ref" else fn.e(x["sub"])
+            if p and p["k"] == "ref" and "did" in p and bits_of((p.get("ty") or "").replace("*", "")) == 64:
+                return "p%d" % p["did"]          # the object a 64-bit pointer parameter points to
+            return None
         if x["k"] == "cast" and bits_of(x.get("ty")) == 64:
             eid = x["sub"]
             continue
@@ -45,7 +50,10 @@ def is_unsigned(fn, eid):
             return False
         if x["k"] == "ref":
             t = (x.get("ty") or "").replace("const ", "").strip()
-            return t.startswith("u") or t.startswith("unsigned") or t == "size_t"
+            return t.startswith("u") or t.startswith("unsigned") or t.startswith("size_t")
+        if x["k"] == "unop" and x["op"] == "*":
+            eid = x["sub"]
+            continue
         if x["k"] in ("cast", "paren"):
             eid = x["sub"]
             continue
@@ -177,6 +185,65 @@ def guard_facts(fn, atom, holds):
     return out
 
 
+HELPERS = {}          # name/arity -> Fn of the unit-local helpers (set by the caller of run())
+_SUMMARY = {}
+
+
+def helper_summary(g):
+    """facts about the 64-bit objects behind g's pointer / reference parameters that hold at every `return true` of g:
+    {param index: set of fact kinds}"""
+    key = id(g)
+    if key in _SUMMARY:
+        return _SUMMARY[key]
+    _SUMMARY[key] = {}
+    if (g.raw.get("ret") or "") != "bool":
+        return {}
+    keys = {}
+    for pi, p in enumerate(g.params):
+        t = p["ty"].replace("const ", "")
+        if "*" in t and bits_of(t.replace("*", "")) == 64:
+            keys["p%d" % p["did"]] = pi
+        elif "&" in t and bits_of(t) == 64:
+            keys[p["did"]] = pi
+    if not keys:
+        return {}
+    m = analysis(g)
+    out = None
+    for b, idx, r in g.return_sites():
+        if g.e(r).get("cv") != 1:
+            continue
+        st = m.before(r)
+        if st is None:
+            continue
+        here = {}
+        for f in st:
+            if f[1] in keys and f[0] == "ranged":
+                here.setdefault(keys[f[1]], set()).add("ranged")
+        out = here if out is None else {k: out[k] & here.get(k, set()) for k in out}
+    _SUMMARY[key] = {k: v for k, v in (out or {}).items() if v}
+    return _SUMMARY[key]
+
+
+def _callee_fn(fn, x):
+    c = x.get("callee")
+    if not c:
+        return None
+    for k, g in HELPERS.items():
+        if k.split("/")[0] == c and int(k.split("/")[1]) == len(x.get("args", [])):
+            return g
+    return None
+
+
+def _addr_of_wide(fn, a):
+    """`&W` (or W bound to a reference) -> key of W"""
+    ax = fn.e(a)
+    while ax and ax["k"] in ("cast", "paren"):
+        ax = fn.e(ax["sub"])
+    if ax and ax["k"] == "unop" and ax["op"] == "&":
+        return wide_root(fn, ax["sub"])
+    return None
+
+
 def analysis(fn):
     allf = {}
     for b in fn.blocks.values():
@@ -185,24 +252,49 @@ def analysis(fn):
                 for h in (True, False):
                     for f in guard_facts(fn, el, h):
                         allf.setdefault(f[1], set()).add(f)
-    t = b.get("term") if False else None
 
     def edge_fx(b, si, atom, holds):
-        return guard_facts(fn, atom, holds)
+        out = list(guard_facts(fn, atom, holds))
+        x = fn.e(atom)
+        if x and x["k"] == "call" and holds:
+            g = _callee_fn(fn, x)
+            if g is not None and g is not fn:
+                for pi, kinds in helper_summary(g).items():
+                    if pi < len(x.get("args", [])):
+                        w = _addr_of_wide(fn, x["args"][pi]) or wide_root(fn, x["args"][pi])
+                        if w is not None and "ranged" in kinds:
+                            out.append(("ranged", w))
+        return out
+
+    def key_of(e):
+        y = fn.e(fn.strip(e)) if fn.e(e) and fn.e(e)["k"] not in ("unop",) else fn.e(e)
+        if y and y["k"] == "ref" and "did" in y:
+            return y["did"]
+        if y and y["k"] == "unop" and y["op"] == "*":
+            return wide_root(fn, e)
+        return None
 
     def elem_fx(eid, x):
+        if x["k"] == "call":
+            kills = ()
+            for a in x.get("args", []):
+                w = _addr_of_wide(fn, a)
+                if w is not None:
+                    kills += tuple(allf.get(w, ())) + (("ranged", w),)      # the callee may change W
+            if kills:
+                return ((), kills)
         tgt = None
         if x["k"] == "binop" and x["op"] in ("=", "+=", "-=", "*=", "<<=", "|=", "^="):
-            tgt = fn.e(fn.strip(x["lhs"]))
+            tgt = key_of(x["lhs"])
         elif x["k"] == "unop" and x["op"] in ("++", "--"):
-            tgt = fn.e(fn.strip(x["sub"]))
+            tgt = key_of(x["sub"])
         if x["k"] == "binop" and x["op"] == "&=":
-            t2 = fn.e(fn.strip(x["lhs"]))
+            t2 = key_of(x["lhs"])
             mk = fn.e(fn.strip(x["rhs"]))
-            if t2 and t2["k"] == "ref" and "did" in t2 and mk is not None and isinstance(mk.get("cv"), int) and 0 <= mk["cv"] < (1 << 32):
-                return ((("ranged", t2["did"]),), tuple(f for f in allf.get(t2["did"], ()) if f[0] == "ub"))
-        if tgt and tgt["k"] == "ref" and "did" in tgt:
-            return ((), tuple(allf.get(tgt["did"], ())) + (("ranged", tgt["did"]),))
+            if t2 is not None and mk is not None and isinstance(mk.get("cv"), int) and 0 <= mk["cv"] < (1 << 32):
+                return ((("ranged", t2),), tuple(f for f in allf.get(t2, ()) if f[0] == "ub"))
+        if tgt is not None:
+            return ((), tuple(allf.get(tgt, ())) + (("ranged", tgt),))
         return None
     return Must(fn, elem_fx, edge_fx)
 
@@ -233,7 +325,10 @@ def bounded_sink(chk, rule, fn, sink, limit, what):
     return n
 
 
-def run(chk, fns, rule="R-NARROW-GUARDED", floor=2, lossy=False):
+def run(chk, fns, rule="R-NARROW-GUARDED", floor=2, lossy=False, helpers=None):
+    HELPERS.clear()
+    HELPERS.update(helpers or {})
+    _SUMMARY.clear()
     chk.rule(rule, "every explicit narrowing conversion of a 64-bit displacement variable is dominated by a range predicate over that variable "
                    "(is_int_n / is_uint_n, must-analysis on the passing edge) or its result is compared with the variable on every path to a "
                    "success exit (round-trip test): a displacement is never truncated silently")
@@ -327,3 +422,84 @@ def run(chk, fns, rule="R-NARROW-GUARDED", floor=2, lossy=False):
                    key="narrow|%s|%s" % (name, re.sub(r"\s+", "", fn.text(i))[:40]))
     chk.floor(rule + ":conversions", n, floor)
     return n
+
+
+def run_discard(chk, fns, helpers=None, rule="R-DISCARD-LSB-CHECKED", floor=3):
+    """a displacement is shifted right by imm_discard_lsb() only after the discarded bits were tested to be zero"""
+    chk.rule(rule, "every right shift of a displacement by the format's discarded-bit count (imm_discard_lsb(), directly or through a local) is "
+                   "dominated by a test that `value & lsb_mask(<same count>)` is zero - in the function itself or in a bool helper it calls: a "
+                   "displacement that is not a multiple of the instruction's scale is refused, never truncated")
+    helpers = helpers or {}
+    n = 0
+    for fn in fns:
+        # locals initialised from imm_discard_lsb()
+        dl = set()
+        for x in fn.ex.values():
+            if x["k"] == "decl":
+                for v in x["vars"]:
+                    if v.get("init") and "imm_discard_lsb()" in fn.text(v["init"]):
+                        dl.add(v["did"])
+
+        def is_discard(e):
+            y = fn.e(fn.strip(e))
+            if y is None:
+                return False
+            if y["k"] == "ref" and y.get("did") in dl:
+                return True
+            return "imm_discard_lsb()" in fn.text(e)
+
+        def mask_test(e):
+            """is `e` of the form (X & lsb_mask(D)) with D the discard count?"""
+            y = fn.e(e)
+            while y and y["k"] in ("paren", "cast"):
+                y = fn.e(y["sub"])
+            if not (y and y["k"] == "binop" and y["op"] == "&"):
+                return False
+            for a in (y["lhs"], y["rhs"]):
+                for j in fn.walk(a):
+                    z = fn.e(j)
+                    if z and z["k"] in ("call", "mcall") and z.get("cn") in ("lsb_mask", "bit_mask") and z.get("args") and is_discard(z["args"][0]):
+                        return True
+            return False
+
+        def helper_tests(x):
+            """call of a bool helper whose single return is `(p & lsb_mask(q)) == 0` with q bound to the discard count"""
+            for k, g in helpers.items():
+                if k.split("/")[0] != (x.get("callee") or ""):
+                    continue
+                rets = list(g.return_sites())
+                if len(rets) != 1 or (g.raw.get("ret") or "") != "bool":
+                    continue
+                v = g.e(g.strip(g.e(rets[0][2]).get("val", 0)))
+                if not (v and v["k"] == "binop" and v["op"] == "==" and g.e(g.strip(v["rhs"])) is not None and g.e(g.strip(v["rhs"])).get("cv") == 0):
+                    continue
+                t = g.text(v["lhs"])
+                m = re.search(r"lsb_mask<[^>]*>\((\w+)\)", t)
+                if not m:
+                    continue
+                for pi, p in enumerate(g.params):
+                    if p["name"] == m.group(1) and pi < len(x.get("args", [])) and is_discard(x["args"][pi]):
+                        return True
+            return False
+
+        def edge_fx(b, si, atom, holds):
+            x = fn.e(atom)
+            if x and x["k"] == "binop" and x["op"] in ("!=", "=="):
+                z = fn.e(fn.strip(x["rhs"]))
+                if z is not None and z.get("cv") == 0 and mask_test(x["lhs"]) and (x["op"] == "==") == holds:
+                    return [("lsb-zero",)]
+            if x and x["k"] == "call" and holds and helper_tests(x):
+                return [("lsb-zero",)]
+            return ()
+        m = None
+        for i, x in sorted(fn.ex.items()):
+            if not (x["k"] == "binop" and x["op"] in (">>", ">>=") and is_discard(x["rhs"])):
+                continue
+            if m is None:
+                m = Must(fn, None, edge_fx)
+            n += 1
+            st = m.before(i) or frozenset()
+            chk.ob(rule, "%s|%s#%d" % (fn.name.split("::")[-1], " ".join(fn.text(i).split())[:44], n), ("lsb-zero",) in st, loc=fn.loc(i),
+                   detail="`%s` discards low bits that no test on this path has shown to be zero: a misaligned displacement is silently rounded" % " ".join(fn.text(i).split())[:70],
+                   key="discardlsb|%s|%d" % (fn.name.split("::")[-1], n))
+    chk.floor(rule + ":shifts", n, floor)
